@@ -162,10 +162,11 @@ func minInt(a, b int) int {
 // SplitSpec: one payload, a list of cut points, a mode and a write method.
 type SplitSpec struct {
 	In     B      `json:"in"`
-	Cuts   []int  `json:"cuts"`   // ascending offsets in [0,len]
-	Unsafe bool   `json:"unsafe"` // UnsafeEscaped vs SafeEscaped
-	Str    []bool `json:"str"`    // per chunk: WriteString instead of Write
-	Pre    B      `json:"pre"`    // raw prefix written first (library-produced fragment)
+	Cuts   []int  `json:"cuts"`           // ascending offsets in [0,len]
+	Unsafe bool   `json:"unsafe"`         // UnsafeEscaped vs SafeEscaped
+	Str    []bool `json:"str"`            // per chunk: WriteString instead of Write
+	Pre    B      `json:"pre"`            // raw prefix written first (library-produced fragment)
+	Look   bool   `json:"look,omitempty"` // Len() and RedactableString() are called between the chunks
 }
 
 func writeSplit(s *SplitSpec, cuts []int) []byte {
@@ -196,6 +197,12 @@ func writeSplit(s *SplitSpec, cuts []int) []byte {
 		}
 		emit(s.In[prev:c])
 		prev = c
+		if s.Look {
+			// a caller that looks at the buffer between two chunks (the
+			// accessors are read-only: the chunks still form one payload)
+			_ = mb.Len()
+			_ = mb.RedactableString()
+		}
 	}
 	emit(s.In[prev:])
 	return []byte(mb.RedactableBytes())
